@@ -3,7 +3,7 @@
 cd "$(dirname "$0")/.."
 ./setup.sh >/dev/null 2>&1 || { echo "setup failed"; exit 2; }
 for s in ${SEEDS:-2 3 4}; do
-for c in C01 C02 C03 C04 C05 C06 C07 C08 C09 C10 C11 C12 C13 C14 C16 C17 C18 C19 C20; do
+for c in C01 C02 C03 C04 C05 C06 C07 C08 C09 C10 C11 C12 C13 C14 C15 C16 C17 C18 C19 C20; do
   t=$(date +%s); out=$(VERIF_SEED=$s nice -n 10 ./check $c --tier quick 2>&1 | grep -v 'KNOWN-FINDING\|^NOTE' | tail -2 | cut -c1-220 | tr '\n' ' '); 
   echo "== seed $s $c $(( $(date +%s) - t ))s :: $out"
 done; done
